@@ -48,6 +48,19 @@ def run(ck: Checker):
     from .c04 import check_routing_sinks
 
     check_routing_sinks(ck, 'C02-7')
+    # "every request gets exactly one answer" also needs the threads that carry the answers to survive and every
+    # dequeued request to have exactly one destination
+    from . import c09
+
+    with ck.as_rule('C02-8', 'the answer path stays alive and loses nothing: the gather thread cannot be killed by a concurrently cancelled future or an unknown id (C07-1, C07-2), every message it pops is followed by one admission signal (C06-4), and the batching collector gives every dequeued request exactly one destination and hands every started batch over (C09-3, C09-7), and the worker queues keep their per-queue reader lock and their writer lock (C09-7: several workers write (id, value) messages to one pipe; without the writer lock the bytes of large messages interleave and the gather thread dies unpickling)', minimum=11):
+        for name in server.SERVERS:
+            s = server.discover(ck.repo, name)
+            server.check_race_free_resolution(ck, 'C07-1', s)
+            server.check_unknown_id_tolerated(ck, 'C07-2', s)
+            server.check_slot_return(ck, 'C06-4', s)
+        c09.check_one_destination(ck, 'C09-3')
+        c09.check_queue_locks(ck, 'C09-7')
+        c09.check_batch_returned(ck, 'C09-7', ck.repo.func(WORKER, 'Worker._get_input_batch'))
 
 
 # ----------------------------------------------------------------------
@@ -323,6 +336,14 @@ def check_ensemble(ck: Checker, rid: str):
         t = res.get(('node', en.id))
         ok = t == (1, 1) and is_name(ec.args[0].elts[0], uid)
         ck.ob(rid, deq, ec, ok, 'exactly one `catalog.pop(uid)` lies on every path from the dequeue to this emit, which carries this message\'s id' if ok else f'between the dequeue and this emit the catalog entry is popped {t} times (must be exactly once), or the emit does not carry `{uid}`')
+    # once a member answer is recorded, the request is either emitted or its completion is tested before the next message:
+    # an answer that takes a path around the completion test (e.g. a failing member under fail_fast=False when the test
+    # hangs off another condition) leaves a complete request in the catalog for ever -- its caller times out and its slot
+    # in the server is never returned
+    if slot is not None:
+        comp_ids = {n.id for n in dcfg.nodes if n.kind == 'test' and isinstance(n.ast, ast.Compare) and isinstance(n.ast.left, ast.Subscript) and is_name(n.ast.left.value, zname) and isinstance(n.ast.left.slice, ast.Constant) and n.ast.left.slice.value == 'n'}
+        pth = path_avoiding(dcfg, dcfg.normal_succ(slot.id), {getn.id, enum.id}, avoid=comp_ids | {n.id for n, _ in emits})
+        ck.ob(rid, deq, slot.ast, pth is None, 'after a member answer is recorded the request is emitted or its completion test is evaluated on every path' if pth is None else 'a recorded member answer can return to the next message without an emit and without the completion test: a request whose last answer takes that path is complete but never emitted (caller times out, server slot never returned)', path=fmt_path(dcfg, [slot.id] + pth) if pth else '')
     # unknown id emits nothing: from the lookup's None branch no emit is reachable before the next get
     none_tests = [n for n in dcfg.nodes if n.kind == 'test' and enum.id in n.loops and isinstance(n.ast, ast.Compare) and is_name(n.ast.left, zname) and isinstance(n.ast.ops[0], ast.Is) and is_none(n.ast.comparators[0])]
     if isinstance(lv, ast.Call):
@@ -351,14 +372,3 @@ def check_ensemble(ck: Checker, rid: str):
             if t[0] == 'back' and (lo, hi) != (1, 1):
                 bad.append(f'{attr} receives {lo}..{hi} queues per member')
     ck.ob(rid, start, fl.ast.iter, not bad, '; '.join(bad) if bad else 'each member contributes exactly one input and one output queue, in member order')
-    # "every request gets exactly one answer" also needs the threads that carry the answers to survive and every
-    # dequeued request to have exactly one destination
-    from . import c09
-
-    with ck.as_rule('C02-8', 'the answer path stays alive and loses nothing: the gather thread cannot be killed by a concurrently cancelled future or an unknown id (C07-1, C07-2), every message it pops is followed by one admission signal (C06-4), and the batching collector gives every dequeued request exactly one destination (C09-3)', minimum=8):
-        for name in server.SERVERS:
-            s = server.discover(ck.repo, name)
-            server.check_race_free_resolution(ck, 'C07-1', s)
-            server.check_unknown_id_tolerated(ck, 'C07-2', s)
-            server.check_slot_return(ck, 'C06-4', s)
-        c09.check_one_destination(ck, 'C09-3')
